@@ -675,11 +675,15 @@ pub fn check_references(context: &Context) -> Result<u32, &'static str>
 
         info!("[ref: 15] Found {} file(s)", finder.code_files.len());
 
+        /* An interrupted pass has not looked at every file, so it must not count as a pass. */
         let missing_reference_count =
-            process_references::<CountMissingReferenceIdProcessor, u32, u32, u32>(
+            match process_references::<CountMissingReferenceIdProcessor, u32, u32, u32>(
                 context, None, &finder,
             )
-            .map_or(0, |id| id);
+            {
+                Some(count) => count,
+                None => return Err("Check interrupted"),
+            };
 
         if missing_reference_count > 0
         {
